@@ -943,8 +943,9 @@ class DetFuture:
         self._state = 'FINISHED'
         # CPython: waiters are notified first, callbacks run afterwards in the
         # completing thread; between two callbacks other threads may run.
-        cbs, self._callbacks = self._callbacks, []
-        for fn in cbs:
+        # (like the stdlib future, the callback list is kept after it ran: whatever the
+        #  callbacks reference stays alive as long as the future does)
+        for fn in list(self._callbacks):
             self._invoke(fn)
 
     def set_exception(self, exc):
@@ -952,8 +953,7 @@ class DetFuture:
         s.point('fut.set', self)
         self._exception = exc
         self._state = 'FINISHED'
-        cbs, self._callbacks = self._callbacks, []
-        for fn in cbs:
+        for fn in list(self._callbacks):
             self._invoke(fn)
 
 
